@@ -36,6 +36,7 @@ def run(ctx):
     ctx.rule("R19.2", "CLAMP-THEN-EMIT: in setSlotSub the clamp statements compute clamp(v,mn,mx), precede the rtosc_message that emits v, and only monotone library functions are applied to v in between")
     ctx.rule("R19.3", "FORMAT: every variadic OSC constructor call in automations.cpp passes the promoted C type its type tag takes")
     ctx.rule("R19.4", "KEYS: the metadata keys read by createBinding / setSlotSubPath are emitted by rLinear/rLog/rLogWithLogmin, and strstr(scale,\"log\") separates the scale values those macros emit")
+    ctx.rule("R19.6", "MAPPING-FRESH: in createBinding / setSlotSubPath every store to a field that updateMapping reads (param_min, param_max, map.gain, map.offset) precedes the updateMapping call")
     ctx.rule("R19.5", "QUEUE-GUARD: every decrement of a -1-sentinel field or of learn_queue_len is enclosed by conditions that are unsatisfiable while another slot expression in them is -1")
 
     # ---- sentinel fields: FieldDecls that are assigned the literal -1
@@ -164,6 +165,32 @@ def run(ctx):
                        key="R19.5:%s:%s" % (q, member_text(tgt)),
                        what="%s decrements %s under conditions that hold with %s" % (q, member_text(tgt), witness))
     ctx.require(n5 >= 4, "R19.5: only %d queue decrements found" % n5)
+
+    # ---- R19.6
+    um = u.function("AutomationMgr::updateMapping")
+    read_fields = set()
+    for x in A.walk(u.body(um)):
+        if x.get("kind") == "MemberExpr" and x.get("name") in ("param_min", "param_max", "gain", "offset", "control_scale"):
+            par = u.parent.get(x.get("id"))
+            if not (par is not None and par.get("kind") == "BinaryOperator" and par.get("opcode") == "=" and A.strip_casts(A.kids(par)[0]).get("id") == x.get("id")):
+                read_fields.add(x.get("name"))
+    ctx.require({"param_min", "param_max", "gain", "offset"} <= read_fields, "updateMapping no longer reads param_min/param_max/gain/offset: %s" % sorted(read_fields))
+    for q in ("AutomationMgr::createBinding", "AutomationMgr::setSlotSubPath"):
+        fnq = u.function(q)
+        top = A.kids(u.body(fnq))
+        calls = [i_ for i_, s_ in enumerate(top) if any(A.callee_name(c) == "updateMapping" for c in A.calls_in(s_))]
+        ctx.require(len(calls) == 1, "%s: expected one updateMapping call" % q)
+        late = []
+        for i_, s_ in enumerate(top):
+            if i_ <= calls[0]:
+                continue
+            for x in A.walk(s_):
+                if x.get("kind") in ("BinaryOperator", "CompoundAssignOperator") and x.get("opcode", "").endswith("=") and x.get("opcode") not in ("==", "!=", "<=", ">="):
+                    l = A.strip_casts(A.kids(x)[0])
+                    if l.get("kind") == "MemberExpr" and l.get("name") in read_fields:
+                        late.append("%s at %s" % (member_text(l), A.where(x)))
+        ctx.ob("R19.6", q, not late, site=A.where(top[calls[0]]), detail={"fields_read_by_updateMapping": sorted(read_fields), "stored_after_the_call": late},
+               what="%s computes the mapping before it stores %s" % (q, late))
 
     # ---- R19.2
     fn = u.function("AutomationMgr::setSlotSub")
